@@ -217,29 +217,32 @@ func (hourDuration) ViewTimeout()            {}
 
 // Node is one real replica: every protocol component of relab/hotstuff wired as in twins/node.go.
 type Node struct {
-	ID        hotstuff.ID
-	Cfg       *core.RuntimeConfig
-	EL        *eventloop.EventLoop
-	BC        *blockchain.Blockchain
-	Auth      *cert.Authority
-	VS        *protocol.ViewStates
-	Rules     consensus.Ruleset
-	VM        *votingmachine.VotingMachine
-	Voter     *consensus.Voter
-	Proposer  *consensus.Proposer
-	Committer *consensus.Committer
-	Sync      *synchronizer.Synchronizer
-	Cache     *clientpb.CommandCache
-	CIO       *server.ClientIO
-	Await     map[clientpb.MessageID]<-chan error // outcome channels of waiting clients
-	Outcomes  [][3]int64                          // (client, seq, 0 = success / 1 = error) in the order they were collected
-	asyncMu   sync.Mutex
-	asyncOut  [][3]int64 // outcomes of requests made through the real ExecCommand handler (SubmitReal), not yet collected
-	Submitted map[clientpb.MessageID]bool
-	LR        leaderrotation.LeaderRotation
-	Key       hotstuff.PrivateKey
-	Gate      *Gate // set when NodeOpts.Async
-	Kauri     *comm.Kauri
+	ID           hotstuff.ID
+	Cfg          *core.RuntimeConfig
+	EL           *eventloop.EventLoop
+	BC           *blockchain.Blockchain
+	Auth         *cert.Authority
+	VS           *protocol.ViewStates
+	Rules        consensus.Ruleset
+	VM           *votingmachine.VotingMachine
+	Voter        *consensus.Voter
+	Proposer     *consensus.Proposer
+	Committer    *consensus.Committer
+	Sync         *synchronizer.Synchronizer
+	Cache        *clientpb.CommandCache
+	CIO          *server.ClientIO
+	Await        map[clientpb.MessageID]<-chan error // outcome channels of waiting clients
+	Outcomes     [][3]int64                          // (client, seq, 0 = success / 1 = error) in the order they were collected
+	Watchdog     time.Duration                       // > 0: a step that does not return gets its view timer fired by the driver (see guarded)
+	StarvedTotal int
+	StarvedViews []int // views in which that happened since the driver last cleared it
+	asyncMu      sync.Mutex
+	asyncOut     [][3]int64 // outcomes of requests made through the real ExecCommand handler (SubmitReal), not yet collected
+	Submitted    map[clientpb.MessageID]bool
+	LR           leaderrotation.LeaderRotation
+	Key          hotstuff.PrivateKey
+	Gate         *Gate // set when NodeOpts.Async
+	Kauri        *comm.Kauri
 
 	Out    []OutMsg
 	Signed []SignRec
@@ -381,8 +384,10 @@ func NewNodes(o NodeOpts) ([]*Node, error) {
 func (n *Node) Start() {
 	ctx, cancel := context.WithCancel(context.Background())
 	n.cancel = cancel
-	n.Sync.Start(ctx)
-	n.Drain()
+	n.guarded(func() int {
+		n.Sync.Start(ctx)
+		return n.drain()
+	})
 }
 
 // Stop cancels the node's context (stops the one-hour timer).
@@ -392,8 +397,50 @@ func (n *Node) Stop() {
 	}
 }
 
+// guarded runs f (which drives the event loop) under a watchdog when Watchdog > 0: a proposer that finds no command batch
+// blocks in CommandCache.Get until its view timer fires -- in a real replica the timer goroutine adds the TimeoutEvent, whose
+// run-in-AddEvent handler cancels the proposer's context; here the driver plays the timer when the replica does not return.
+func (n *Node) guarded(f func() int) int {
+	if n.Watchdog <= 0 {
+		return f()
+	}
+	type res struct {
+		k   int
+		pan any
+	}
+	done := make(chan res, 1)
+	go func() {
+		var r res
+		defer func() {
+			r.pan = recover()
+			done <- r
+		}()
+		r.k = f()
+	}()
+	for tries := 0; ; tries++ {
+		select {
+		case r := <-done:
+			if r.pan != nil {
+				panic(r.pan)
+			}
+			return r.k
+		case <-time.After(n.Watchdog):
+			if tries > 20 {
+				panic(fmt.Sprintf("node %d: blocked although its view timer fired %d times", n.ID, tries))
+			}
+			n.StarvedViews = append(n.StarvedViews, int(n.VS.View()))
+			n.StarvedTotal++
+			n.EL.AddEvent(hotstuff.TimeoutEvent{View: n.VS.View()})
+		}
+	}
+}
+
 // Drain runs the event loop until no event is pending; returns the number of events handled.
 func (n *Node) Drain() int {
+	return n.guarded(n.drain)
+}
+
+func (n *Node) drain() int {
 	k := 0
 	for n.EL.Tick(context.Background()) {
 		k++
@@ -406,8 +453,10 @@ func (n *Node) Drain() int {
 
 // Deliver hands a message to the node the way the server does (AddEvent) and runs to quiescence.
 func (n *Node) Deliver(msg any) int {
-	n.EL.AddEvent(msg)
-	return n.Drain()
+	return n.guarded(func() int {
+		n.EL.AddEvent(msg)
+		return n.drain()
+	})
 }
 
 // FireTimeout makes the node's view timer expire for its current view.
